@@ -192,10 +192,11 @@ def run_path(contract, I, decisions, model=None):
     """Execute the contract's function along one decision prefix.  Returns (ctx, S, a, outcome, value)."""
     ctx = Ctx(I, decisions)
     I.new_path(ctx)
-    I.loop_specs = dict(contract.loops)
-    I.summaries = dict(contract.summaries)
+    I.loop_specs, I.summaries = {}, {}
     S = sp.Spec(ctx, I, model=model)
     a = contract.inputs(S)
+    I.loop_specs = dict(contract.loops)  # inputs() may build loop contracts / summaries over its symbols
+    I.summaries = dict(contract.summaries)
     contract.setup(I, S, a)
     pre = None
     ctx.np_floats = bool(contract.np_floats)
